@@ -306,11 +306,14 @@ func findReference(msaIn io.Reader, referenceID string) (fastaio.EncodedFastaRec
 
 		if first {
 
-			if line[0] != '>' {
+			if len(line) == 0 || line[0] != '>' {
 				return fastaio.EncodedFastaRecord{}, errors.New("badly formatted fasta file")
 			}
 
 			description = string(line[1:])
+			if len(strings.Fields(description)) == 0 {
+				return fastaio.EncodedFastaRecord{}, errors.New("badly formatted fasta file: header line without a sequence name")
+			}
 			id = strings.Fields(description)[0]
 
 			if id == referenceID {
@@ -319,6 +322,8 @@ func findReference(msaIn io.Reader, referenceID string) (fastaio.EncodedFastaRec
 
 			first = false
 
+		} else if len(line) == 0 {
+			// blank lines are ignored
 		} else if line[0] == '>' {
 
 			if refFound {
@@ -334,6 +339,9 @@ func findReference(msaIn io.Reader, referenceID string) (fastaio.EncodedFastaRec
 
 			counter++
 			description = string(line[1:])
+			if len(strings.Fields(description)) == 0 {
+				return fastaio.EncodedFastaRecord{}, errors.New("badly formatted fasta file: header line without a sequence name")
+			}
 			id = strings.Fields(description)[0]
 			seqBuffer = make([]byte, 0)
 
